@@ -23,6 +23,7 @@ RULE = ("24 (cooler, option) points that converge quickly: (a) EVERY chunksize 1
         "pixel exactly once; (e) agreement with the dense reference procedure over an option product. Oracle: identical NaN pattern, "
         "weights within 1e-9 relative of the baseline run AND of ref_balance, scale/var within 1e-6, `converged` equal. Non-trivial: "
         ">=2 spans or a non-default map. Distinct by construction.")
+EXTRA_LEGS = "dense-reference agreement also on coolers that store explicit zero counts (kind s6z), 3 tables x 3 modes x 48 option points."
 BOUNDS = {"quick": "schedule deviation bound 1 on 6 points; ref agreement on 6 coolers x 144 option points",
           "thorough": "schedule deviation bound 2 (2 and 3 spans; bound 1 for 4 spans) on 8 points; ref agreement on 18 coolers x 144 points"}
 ASSUMPTIONS = ["runs in which the reference sees a sweep with |var - tol| < 1e-6 tol are numerically undecidable (which sweep stops first) and set aside (counted)",
@@ -54,6 +55,10 @@ def units(tier):
     yield {"leg": "cli"}
     for mode in c10.MODES:
         yield {"leg": "sameuri", "mode": mode}
+    # a cooler that stores explicit zero counts (a stored zero is no contact): agreement with the dense reference for every option point
+    for ti in range(3):
+        for mode in c10.MODES:
+            yield {"leg": "ref", "t": ti, "mat": "full", "mode": mode, "kind": "s6z"}
 
 
 def _sameuri(R, mode, only):
@@ -390,7 +395,7 @@ def _visit(R, ti, mat, only):
 
 
 def _ref(R, unit, only):
-    clr, A, chrom_of = c10.get_cooler("s6", unit["t"], unit["mat"])
+    clr, A, chrom_of = c10.get_cooler(unit.get("kind", "s6"), unit["t"], unit["mat"])
     R.add("states")
     R.add("traces")
     kk = 0
